@@ -247,6 +247,8 @@ pub struct Ctx<'a> {
     pub short: u32,
     pub multishot_end: u32,
     pub digest: u64,
+    /// memory ranges the program says it currently holds as pool buffers (C07): (addr, len)
+    pub held: &'a [(usize, usize, u64)],
 }
 
 impl Ctx<'_> {
@@ -265,6 +267,14 @@ impl Ctx<'_> {
         let bid = unsafe { ((e + 12) as *const u16).read_unaligned() };
         r.head = r.head.wrapping_add(1);
         crate::probe("provided-buffer-selected");
+        if self.held.iter().any(|(a, l, _)| *a < addr + len as usize && addr < *a + *l) {
+            simcore::try_with(|d| {
+                d.raise(simcore::Violation::new(
+                    "kernel-selected-held-buffer",
+                    format!("buffer {bid} of group {group} was selected by the kernel for a receive while the program still holds a handle to it"),
+                ))
+            });
+        }
         if simcore::quarantine::is_freed(addr) {
             // published to the kernel, then freed: the kernel is about to write into it
             simcore::try_with(|d| {
